@@ -3,28 +3,17 @@ package main
 import (
 	"fmt"
 	"os"
-	"time"
+
+	"github.com/inspirer/textmapper/grammar"
 
 	"verif/internal/genharness"
-	"verif/internal/gramenum"
 )
 
 func main() {
-	var specs []genharness.Spec
-	k := 0
-	base := int(time.Now().Unix() % 1000 * 100)
-	gramenum.Enumerate(gramenum.Scope{N: 1, T: 2, R: 2, K: 2, Reduced: true}, func(idx int, g *gramenum.Gram) bool {
-		if k >= 40 {
-			return false
-		}
-		name := fmt.Sprintf("g%d", base+k)
-		inputs := []gramenum.Input{{NT: g.T + 1, Eoi: true}}
-		tm := g.ToTM(inputs, gramenum.TMOpts{Name: name, Events: true})
-		specs = append(specs, genharness.Spec{Name: name, TM: tm, Cases: []genharness.Case{{Text: "ab", Mode: "parse"}}})
-		k++
-		return true
-	})
-	t0 := time.Now()
-	outs, err := genharness.RunBatch(specs, genharness.BatchOpts{KeepDir: os.Getenv("KEEP") != ""})
-	fmt.Println(err, time.Since(t0), len(outs))
+	data, _ := os.ReadFile(os.Args[1])
+	outs, err := genharness.RunBatch([]genharness.Spec{{Name: "g0001", TM: string(data), Cases: []genharness.Case{{Text: os.Args[2]}}, Driver: func(g *grammar.Grammar, name string) string { return genharness.StdDriver(g, name) + os.Getenv("EXTRA") }}}, genharness.BatchOpts{Vet: true})
+	fmt.Println(err)
+	o := outs[0]
+	fmt.Println("gen:", o.GenErr, o.GenPanic, "build:", o.BuildErr)
+	fmt.Printf("%+v\n", o.Results)
 }
